@@ -39,6 +39,7 @@ func (x *Exec) call(fc *funcCtx, n *node, ins ssa.Instruction, c *ssa.CallCommon
 		args = append(args, op(a))
 	}
 	pos := ins.Pos()
+	x.atCallAssertions(fc, n, ins, c, args)
 	if c.IsInvoke() {
 		recv := op(c.Value)
 		return x.invoke(fc, n, ins, c, recv, args, rty)
@@ -648,6 +649,14 @@ func (x *Exec) invoke(fc *funcCtx, n *node, ins ssa.Instruction, c *ssa.CallComm
 			}
 		}
 	}
+	// scheduling a task on a scheduler queue: spawn rule for the closure
+	if c.Method.Name() == "Schedule" && strings.HasSuffix(typeName(c.Value.Type()), "scheduler.Scheduler") && len(args) == 1 {
+		x.spawnClosure(n, args[0], pos, x.dynKeyAny(c.Value))
+		return TupleV{}
+	}
+	if c.Method.Name() == "Close" && strings.HasSuffix(typeName(c.Value.Type()), "scheduler.Scheduler") {
+		return TupleV{}
+	}
 	// interface method contract
 	itn := typeName(c.Value.Type())
 	key := itn + "." + c.Method.Name()
@@ -755,18 +764,23 @@ func (x *Exec) applyGhostSet(c *Clause, env *SpecEnv, st *State) {
 		return
 	}
 	id, ok := call.Fun.(*ast.Ident)
-	if !ok || !(strings.HasPrefix(id.Name, "gf_") || strings.HasPrefix(id.Name, "gb_") || strings.HasPrefix(id.Name, "gg_") || strings.HasPrefix(id.Name, "ggb_")) {
+	if !ok || !(strings.HasPrefix(id.Name, "gf_") || strings.HasPrefix(id.Name, "gb_") || strings.HasPrefix(id.Name, "gg_") || strings.HasPrefix(id.Name, "ggb_") || strings.HasPrefix(id.Name, "ggv_") || strings.HasPrefix(id.Name, "gv_")) {
 		env.errorf("ghostset: target must be gf_name(obj), gb_name(obj), gg_name() or ggb_name()")
 		return
 	}
 	var obj *Term
 	gname := id.Name[3:]
+	if strings.HasPrefix(id.Name, "gv_") {
+		gname = "v." + id.Name[3:]
+	}
 	isBool := strings.HasPrefix(id.Name, "gb_")
 	if len(call.Args) == 0 {
 		obj = IntLit(0)
 		if strings.HasPrefix(id.Name, "ggb_") {
 			gname = "global." + id.Name[4:]
 			isBool = true
+		} else if strings.HasPrefix(id.Name, "ggv_") {
+			gname = "globalv." + id.Name[4:]
 		} else {
 			gname = "global." + id.Name[3:]
 		}
@@ -807,4 +821,172 @@ func (x *Exec) applyGhostSet(c *Clause, env *SpecEnv, st *State) {
 	x.objSet(st, "ghost."+gname, obj, rhs)
 	st.noRecord--
 	env.st = save
+}
+
+// calleeDisplayName names a call site for atcall clauses: "(*Call).done", "PutCall", "ClientCodec.WriteRequest".
+func (x *Exec) calleeDisplayName(c *ssa.CallCommon) string {
+	if c.IsInvoke() {
+		return typeName(c.Value.Type()) + "." + c.Method.Name()
+	}
+	switch callee := c.Value.(type) {
+	case *ssa.Function:
+		return x.P.SpecName(callee)
+	case *ssa.Builtin:
+		return callee.Name()
+	case *ssa.MakeClosure:
+		if f, ok := callee.Fn.(*ssa.Function); ok {
+			return x.P.SpecName(f)
+		}
+	}
+	if k := x.dynKey(c.Value); k != "" {
+		return k
+	}
+	return ""
+}
+
+// atCallAssertions checks `atcall callee#n: expr` clauses of the function under verification at this call site.
+func (x *Exec) atCallAssertions(fc *funcCtx, n *node, ins ssa.Instruction, c *ssa.CallCommon, args []Value) {
+	if !fc.top {
+		return
+	}
+	name := x.calleeDisplayName(c)
+	if name == "" {
+		return
+	}
+	var clauses []*Clause
+	any := false
+	for _, cl := range fc.clauses {
+		if cl.Kind == "atcall" && cl.Block == name {
+			clauses = append(clauses, cl)
+		}
+		if (cl.Kind == "atcall" || cl.Kind == "ghostat") && cl.Block == name {
+			any = true
+		}
+	}
+	if !any {
+		return
+	}
+	// ordinal of this call site among the calls to the same callee, in block order
+	ord := 0
+	found := false
+	for _, b := range fc.fn.Blocks {
+		for _, bi := range b.Instrs {
+			var cc *ssa.CallCommon
+			switch v := bi.(type) {
+			case *ssa.Call:
+				cc = &v.Call
+			case *ssa.Defer:
+				cc = &v.Call
+			case *ssa.Go:
+				cc = &v.Call
+			}
+			if cc == nil || x.calleeDisplayName(cc) != name {
+				continue
+			}
+			ord++
+			if bi == ins {
+				found = true
+				break
+			}
+		}
+		if found {
+			break
+		}
+	}
+	for _, cl := range clauses {
+		if cl.Ord != ord {
+			continue
+		}
+		env := x.localSpecEnv(n.st, n.guard, false)
+		for i, a := range args {
+			env.vars[fmt.Sprintf("arg%d", i)] = a
+		}
+		g := env.EvalBool(cl.Expr)
+		x.reportSpecErrors(env, x.TopName, cl)
+		x.Oblige("atcall", fmt.Sprintf("%s#%d: %s", name, ord, clauseLabel(cl)), fmt.Sprint(ins.Pos()), ins.Pos(), n.guard, g, cl.Props)
+		fc.atcallSeen[cl] = true
+	}
+	// ghost updates attached to this call site
+	for _, cl := range fc.clauses {
+		if cl.Kind != "ghostat" || cl.Block != name || cl.Ord != ord {
+			continue
+		}
+		env := x.localSpecEnv(n.st, n.guard, true)
+		for i, a := range args {
+			env.vars[fmt.Sprintf("arg%d", i)] = a
+		}
+		x.applyGhostSet(cl, env, n.st)
+		x.reportSpecErrors(env, x.TopName, cl)
+		fc.atcallSeen[cl] = true
+	}
+}
+
+// spawnClosure: the closure runs later on another goroutine. Its contract's preconditions are obligations of the
+// spawner; resources named by `consumes` clauses are handed over (the spawner no longer has them).
+func (x *Exec) spawnClosure(n *node, fv Value, pos token.Pos, queue string) {
+	cv, ok := fv.(ClosureV)
+	if !ok {
+		x.VC.Warnf("scheduled function is not a closure literal in %s: nothing checked for it", x.TopName)
+		return
+	}
+	name := x.P.SpecName(cv.Fn)
+	fs, ok := x.P.Spec.Funcs[name]
+	if !ok {
+		x.VC.Warnf("closure %s is scheduled without a contract: its body is not covered by this check", name)
+		return
+	}
+	st := n.st.Clone()
+	st.Locks = map[string]bool{}
+	errs := []string{}
+	env := &SpecEnv{x: x, vars: map[string]Value{}, st: st, old: st, guard: n.guard, errs: &errs}
+	for i, fvar := range cv.Fn.FreeVars {
+		if i >= len(cv.Bindings) {
+			break
+		}
+		switch b := cv.Bindings[i].(type) {
+		case LocV:
+			if b.Kind == "cell" {
+				if v, ok := n.st.Cells[b.Cell]; ok {
+					env.vars[fvar.Name()] = v
+				}
+			}
+		default:
+			env.vars[fvar.Name()] = b
+		}
+	}
+	env.vars["queue"] = x.stringLit(queue, types.Typ[types.String])
+	for _, cl := range fs.CallCase().Clauses {
+		switch cl.Kind {
+		case "requires":
+			g := env.EvalBool(cl.Expr)
+			x.reportSpecErrors(env, name, cl)
+			x.Oblige("pre", clauseLabel(cl)+" @schedule "+name, fmt.Sprint(pos), pos, n.guard, g, nil)
+		}
+	}
+	for _, cl := range fs.CallCase().Clauses {
+		if cl.Kind != "consumes" {
+			continue
+		}
+		// consumes gf_tok(x): the spawner must hold the token (2) and gives it away
+		call, ok := cl.Expr.(*ast.CallExpr)
+		if !ok || len(call.Args) != 1 {
+			continue
+		}
+		id, _ := call.Fun.(*ast.Ident)
+		if id == nil || !strings.HasPrefix(id.Name, "gf_") {
+			continue
+		}
+		env.st = n.st
+		ov, ok := env.eval(call.Args[0]).(Scalar)
+		if !ok {
+			continue
+		}
+		key := "ghost." + id.Name[3:]
+		cur := x.objGet(n.st, key, IntS, ov.T)
+		internal := x.objGet(n.st, "ghost.internal", BoolS, ov.T)
+		x.Oblige("token", "handing "+cl.Text+" to "+name, fmt.Sprint(pos), pos, n.guard, Or(Eq(cur, IntLit(2)), internal), nil)
+		n.st.noRecord++
+		x.objSet(n.st, key, ov.T, Ite(internal, cur, IntLit(0)))
+		n.st.noRecord--
+	}
 }
